@@ -39,6 +39,7 @@ theorem check_eq_model (tr : Bytes → Bytes) (r : FqRec) (hs : tr r.seq = r.seq
               else .ok ()) := by
   have e1 : Rs.isAscii r.seq = r.seq.all (· < 128) := by simp [Rs.isAscii]
   have e2 : Rs.isAscii r.qual = r.qual.all (· < 128) := by simp [Rs.isAscii]
+  have h4' : (r.qual.length = r.seq.length) = (r.seq.length = r.qual.length) := propext eq_comm
   by_cases h1 : r.id = [] <;> by_cases h4 : r.seq.length = r.qual.length <;>
     cases h2 : r.seq.all (· < 128) <;> cases h3 : r.qual.all (· < 128) <;>
     simp_all [Gen.SrcFastq.recordCheck, Gen.SrcFastq.recordId, Gen.SrcFastq.recordSeq, Gen.SrcFastq.recordQual]
